@@ -47,24 +47,36 @@ Inductive rnode :=
 | RDone (uid : ukey) (key : N) (sh : dshape)      (* completed in an earlier run of the sequence *)
 | RSub (uid : ukey) (key : N) (inf : info) (stages : list (list rnode))
 | RTools (uid : ukey) (key : N) (inf : info) (calls : list rcall)
-| RStop (armed : nat).
+| RStop (armed : nat)
+| RFault (delay : nat).
     (* a configured interrupt point (compile options WithInterruptBeforeNodes / WithInterruptAfterNodes
        of the graph of this level), a stage of its own between the stage after which and the stage
        before which the run stops: while armed the run that arrives here is interrupted (no node
        asked for it, none has failed: handleInterrupt), the run that resumes it passes
        (restoreTasks does not look at the interrupt points again) *)
+    (* [RFault delay] - a stage of its own, the FIRST stage of a nested graph: the prologue of that graph's
+       runner.run fails (its checkpoint, handed down in the context by the run that resumes, cannot be
+       restored: restoreCheckPoint / the state modifier / restoreTasks - a newer build of the nested graph
+       has no node for a pending task) in the execution that comes after [delay] interrupted executions of
+       the nested graph.  Until then it is nothing.  When it strikes nothing of the nested graph executes:
+       the graph of that level reports its start and its error (the deferred bookkeeping), the enclosing
+       node has failed.  For the callback operations this is [GStop] - a stage at which the run of that
+       level ends with an error before anything (more) executes -, but the outcome is a failure, not an
+       interrupt: the sequence ends.  (The prologue of the TOP-level graph failing: [prologue_fault] below.) *)
 
 Definition rnode_key (n : rnode) : N :=
   match n with
   | RLambda _ k _ _ _ _ => k | RPass _ k => k | RDone _ k _ => k | RSub _ k _ _ => k | RTools _ k _ _ => k
   | RStop _ => 0%N
+  | RFault _ => 0%N
   end.
 Definition rnode_uid (n : rnode) : ukey :=
   match n with
   | RLambda u _ _ _ _ _ => u | RPass u _ => u | RDone u _ _ => u | RSub u _ _ _ => u | RTools u _ _ _ => u
   | RStop _ => 0%N
+  | RFault _ => 0%N
   end.
-Definition rnode_is_node (n : rnode) : bool := match n with RStop _ => false | _ => true end.
+Definition rnode_is_node (n : rnode) : bool := match n with RStop _ => false | RFault _ => false | _ => true end.
 
 Definition call_intr (c : rcall) : bool := match snd c with O => false | S _ => true end.
 Definition proj_call (c : rcall) : ukey * info * N * bool :=
@@ -81,6 +93,7 @@ Fixpoint proj (n : rnode) : list gnode :=
   | RSub uid key inf stages => [GSub uid key inf (map (flat_map proj) stages)]
   | RTools uid key inf calls => [GTools uid key inf (map proj_call calls)]
   | RStop armed => match armed with O => [] | S _ => [GStop] end
+  | RFault delay => match delay with O => [GStop] | S _ => [] end
   end.
 Definition proj_stages (stages : list (list rnode)) : list (list gnode) := map (flat_map proj) stages.
 
@@ -183,6 +196,7 @@ Fixpoint node_outcome (opts : list copt) (n : rnode) {struct n} : outcome :=
       else stages_outcome (map (map (node_outcome sopts)) stages)
   | RTools _ _ _ calls => calls_outcome calls
   | RStop armed => match armed with O => OutOk | S _ => OutIntr end
+  | RFault delay => match delay with O => OutFail | S _ => OutOk end
   end.
 
 Definition run_outcome (opts : list copt) (stages : list (list rnode)) : outcome :=
@@ -194,6 +208,7 @@ Definition run_outcome (opts : list copt) (stages : list (list rnode)) : outcome
 Definition done_of (n : rnode) : rnode :=
   match n with
   | RStop _ => RStop 0     (* an interrupt point that has been passed stays what it is: no node *)
+  | RFault delay => RFault (pred delay)   (* one more interrupted execution of the nested graph has passed *)
   | _ => RDone (rnode_uid n) (rnode_key n) (shape_of n)
   end.
 
@@ -224,6 +239,7 @@ Fixpoint resume_node (opts : list copt) (n : rnode) {struct n} : rnode :=
         (resume_walk (map (map (fun m => (m, node_outcome sopts m, resume_node sopts m))) stages))
   | RTools uid key inf calls => RTools uid key inf (map resume_call calls)   (* the whole node again *)
   | RStop armed => RStop (pred armed)
+  | RFault delay => RFault delay
   end.
 
 Definition resume_stages (opts : list copt) (stages : list (list rnode)) : list (list rnode) :=
@@ -242,6 +258,7 @@ Fixpoint node_intr (n : rnode) : nat :=
       list_sum (map (fun st => list_sum (map node_intr st)) stages)
   | RTools _ _ _ calls => list_sum (map (fun c : rcall => snd c) calls)
   | RStop armed => armed
+  | RFault _ => 0
   end.
 Definition total_intr (stages : list (list rnode)) : nat :=
   list_sum (map (fun st => list_sum (map node_intr st)) stages).
@@ -254,6 +271,7 @@ Fixpoint ruids (n : rnode) : list ukey :=
   | RSub uid _ _ stages => uid :: flat_map (flat_map ruids) stages
   | RTools uid _ _ calls => uid :: map (fun c : rcall => fst (fst (fst (fst c)))) calls
   | RStop _ => []
+  | RFault _ => []
   end.
 Definition rstages_uids (stages : list (list rnode)) : list ukey := flat_map (flat_map ruids) stages.
 
